@@ -75,7 +75,7 @@ PROPS = {
     "C14": {"level": "exploration", "assumptions": PURE_ASSUME + ["HMAC-SHA256 is unforgeable; the run's secret never appears in a generated invalid credential unless the harness itself signs with it", "route discovery through the verif-only server.Routes hook + chi.Walk"],
             "parts": [rp("httpauth", "TestC14", (3000, 2), (60000, 8)),
                       rp("httpauth", "TestC14Concurrent", (40, 2), (1500, 8), race=True),
-                      rp("procs", "TestC14Binary", (3, 1), (40, 4), helpers=["cmd/vhelper", "pkg:github.com/Flowpack/prunner/cmd/prunner"]),
+                      rp("procs", "TestC14Binary", (6, 1), (60, 4), helpers=["cmd/vhelper", "pkg:github.com/Flowpack/prunner/cmd/prunner"]),
                       {"pkg": "httpauth", "fuzz": "FuzzC14Credential", "thorough": {"fuzztime": "180s", "wall": 900}}]},
     "C15": {"level": "exploration", "assumptions": SIM_ASSUME, "parts": [sim("TestC15", q=(250, 4), t=(3000, 16))]},
     "C16": {"level": "exploration", "assumptions": SIM_ASSUME + ["the binary part observes a reload through jobs scheduled over HTTP; a reload request (SIGUSR1 / poll) is given 3 s to take effect"],
